@@ -52,8 +52,8 @@ func fifoWith(path, text string) string {
 		return path
 	}
 	go func() {
-		// wait (at most ~2 s) for a reader, write, close
-		for i := 0; i < 2000; i++ {
+		// wait (up to two minutes on a stalled machine) for a reader, write, close
+		for i := 0; i < 120000; i++ {
 			w, err := os.OpenFile(path, os.O_WRONLY|syscall.O_NONBLOCK, 0)
 			if err == nil {
 				syscall.SetNonblock(int(w.Fd()), false)
